@@ -7,7 +7,7 @@ LEAN_MODULES = ["MesaModel.Props.C15"]
 THEOREMS = ["Mesa.Devs." + t for t in (
     "C15_chunking", "C15_fuel_irrelevant", "C15_abm_steps_eq_clock", "C15_step_once_per_tick",
     "C15_step_always_armed", "C15_step_before_lower_priority")]
-COUNTS = {"quick": 500, "thorough": 16000}
+COUNTS = {"quick": 500, "thorough": 150000}
 TRUSTED = [
     "CPython heapq pop-min; refcount weakref death; exact dyadic time arithmetic (see C14)",
     "Model._wrapped_step increments model.steps before the user's step body (property C05)",
